@@ -472,6 +472,44 @@ func patternString(code [8]int) string {
 // but not narrowed — a narrowing conversion silently drops the high bits of large values.
 func runC20Narrowing(c *Ctx) {
 	r := c.R
+	// netip addresses are rendered by netip itself: Line.IP hands every valid address to (netip.Addr).AppendTo. The
+	// hand-written IPv6 formatter knows neither the IPv4-mapped form (::ffff:1.2.3.4) nor zones (fe80::1%eth0).
+	r.Rule("netip-text", "Line.IP renders every valid netip.Addr with netip's own AppendTo", 1)
+	if fn := c.P.Method("fastlog", "Line", "IP"); fn != nil {
+		var valid ssa.Instruction
+		for _, s := range callsIn(fn, nameIs("IsValid")) {
+			valid = s.(ssa.Instruction)
+		}
+		st, det := core.Violated, "the IsValid test of Line.IP was not found"
+		if valid != nil {
+			// every return reached with IsValid() true has passed AppendTo on the value
+			st, det = core.Proved, ""
+			core.EachInstr(fn, func(i ssa.Instruction) {
+				ret, ok := i.(*ssa.Return)
+				if !ok {
+					return
+				}
+				underValid := false
+				for _, g := range guardsOf(ret) {
+					if g.Pol && g.Cond == valid.(ssa.Value) {
+						underValid = true
+					}
+				}
+				if !underValid {
+					return
+				}
+				if reachesWithout(valid, ret, func(j ssa.Instruction) bool {
+					cj, isCall := j.(ssa.CallInstruction)
+					return isCall && core.CalleeName(cj) == "(net/netip.Addr).AppendTo"
+				}) {
+					st = core.Violated
+					det = "a valid address reaches the return at " + c.P.Pos(core.PosOf(ret)) + " without (netip.Addr).AppendTo: it is rendered by other code, which does not produce netip's text for IPv4-mapped or zoned addresses"
+				}
+			})
+		}
+		r.Add(core.Obligation{Rule: "netip-text", Key: "netip-text Line.IP", Func: core.FuncName(fn), Pos: c.P.Pos(fn.Pos()), Status: st,
+			Basis: "every path with IsValid() passes (netip.Addr).AppendTo", Detail: det})
+	}
 	r.Rule("narrowing", "integer appenders do not narrow the value before rendering it", 5)
 	sizes := types.SizesFor("gc", "amd64")
 	for _, name := range []string{"Int", "Uint8", "Uint16", "Uint32", "Uint8Hex", "Uint16Hex"} {
